@@ -20,7 +20,7 @@
    [interrupting] and [skipUploadCommand] are only ever set by an uploadDragFiles goroutine,
    which only exists after such a drag list (or the UploadFiles API): [idle] excludes them and
    [C05_session_invariant] shows they cannot appear otherwise. *)
-From Trzsz Require Import Base.Bytes Gen.Consts Gen.Skel_filter Model.Filter Proofs.Filter Proofs.FilterDrag.
+From Trzsz Require Import Base.Bytes Gen.Consts Gen.Skel_filter Model.Filter Model.FilterDet Proofs.Filter Proofs.FilterDrag.
 From Trzsz Require Model.Detector.
 
 (* ---- output direction: every chunk list, chunk-exact, exactly once, state stays idle ---- *)
@@ -411,3 +411,79 @@ Example C05_redisplay_example :
   fst (fst (Detector.detect true (after true) false line)) = line /\
   (match snd (fst (Detector.detect false (after false) false line)) with Some _ => true | None => false end) = true.
 Proof. vm_compute. auto. Qed.
+
+
+(* ======================================================================================= *)
+(* server output while the client hides the output of a command it interrupted itself       *)
+(* (fourth round, seed C06-8): detection comes BEFORE the drop                              *)
+
+(* the window opens: 300 ms after a drop, or at once after the UploadFiles API; exactly the
+   ctrl-C byte goes to the server *)
+Theorem C05_window_opens_drag :
+  forall dstate trigger detect trig_prompts zmodem_detect zstate zm_init zm_handle zm_busy zm_stop
+         drag_detect msg_on msg_off is_stop_key o (s : state dstate zstate) c1 fs hd s' ob,
+  idle s = true -> detect_on s = true -> drag_files s = None ->
+  d_files (drag_detect c1) = Some (fs, hd) ->
+  run dstate trigger detect trig_prompts zmodem_detect zstate zm_init zm_handle zm_busy zm_stop
+      drag_detect msg_on msg_off is_stop_key o s [EvIn c1; EvDrag 0] = (s', ob) ->
+  ob = [ToServer [drag_interrupt_byte]] /\ in_window dstate zstate s' /\ drag_procs s' = [DInterrupt] /\
+  handlers s' = [] /\ det s' = det s /\ trace_on s' = trace_on s.
+Proof. exact window_opens_drag. Qed.
+Print Assumptions C05_window_opens_drag.
+
+Theorem C05_window_opens_api :
+  forall dstate trigger detect trig_prompts zmodem_detect zstate zm_init zm_handle zm_busy zm_stop
+         drag_detect msg_on msg_off is_stop_key o (s : state dstate zstate) fs hd s' ob,
+  idle s = true -> dragging s = false -> drag_files s = None ->
+  run dstate trigger detect trig_prompts zmodem_detect zstate zm_init zm_handle zm_busy zm_stop
+      drag_detect msg_on msg_off is_stop_key o s [EvApiUpload fs hd; EvDrag 0] = (s', ob) ->
+  ob = [ToServer [drag_interrupt_byte]] /\ in_window dstate zstate s' /\ drag_procs s' = [DInterrupt] /\
+  handlers s' = [] /\ det s' = det s /\ trace_on s' = trace_on s.
+Proof. exact window_opens_api. Qed.
+Print Assumptions C05_window_opens_api.
+
+(* EVERY list of chunks arriving inside the window, for every detector: what is shown is exactly
+   the chunks on which the detector fires, as rewritten by it (disarmed), one handleTrzsz is
+   started per firing chunk, everything else is dropped, nothing is sent to the server, and the
+   window stays open *)
+Theorem C05_window_out :
+  forall dstate trigger detect trig_prompts zmodem_detect zstate zm_init zm_handle zm_busy zm_stop
+         drag_detect msg_on msg_off is_stop_key o cs (s s' : state dstate zstate) ob,
+  in_window dstate zstate s -> Forall (fun c => trace_fires dstate zstate o s c = false) cs ->
+  out_pump dstate trigger detect trig_prompts zmodem_detect zstate zm_init zm_handle zm_busy zm_stop
+           drag_detect msg_on msg_off is_stop_key o s cs = (s', ob) ->
+  term_writes ob = fst (window_shown dstate trigger detect (det s) cs) /\ server_writes ob = [] /\
+  handlers s' = handlers s ++ repeat HChoosing (snd (window_shown dstate trigger detect (det s) cs)) /\
+  in_window dstate zstate s' /\
+  drag_procs s' = drag_procs s /\ drag_has_dir s' = drag_has_dir s /\ skip_cmd s' = skip_cmd s /\
+  dragging s' = dragging s /\ drag_files s' = drag_files s /\ prompt s' = prompt s /\ held s' = held s.
+Proof. exact window_out. Qed.
+Print Assumptions C05_window_out.
+
+(* the window ends: the flag is cleared and the upload command typed; from then on output is
+   subject only to the echo suppression (C05_skip_pending) *)
+Theorem C05_window_ends :
+  forall dstate trigger detect trig_prompts zmodem_detect zstate zm_init zm_handle zm_busy zm_stop
+         drag_detect msg_on msg_off is_stop_key o (s s' : state dstate zstate) ob rest,
+  drag_procs s = DInterrupt :: rest ->
+  step dstate trigger detect trig_prompts zmodem_detect zstate zm_init zm_handle zm_busy zm_stop
+       drag_detect msg_on msg_off is_stop_key o s (EvDrag 0) = (s', ob) ->
+  ob = [ToServer (drag_command dstate zstate o s ++ drag_cmd_end)] /\
+  interrupting s' = false /\ skip_cmd s' = true /\ cur_cmd s' = Some (drag_command dstate zstate o s) /\
+  drag_procs s' = DCmd :: rest /\ handlers s' = handlers s /\ transfer s' = transfer s.
+Proof. exact window_ends. Qed.
+Print Assumptions C05_window_ends.
+
+(* with the detector model of C06: ordinary output, a complete fresh trigger line, the two halves
+   of another one.  Shown: the complete line only, as ::TRZSZGO:...; transfers started: one *)
+Example C05_window_example :
+  let line := Detector.trigger_line 83 (1, 1, 6) 1700000000100 0 in
+  let line2 := Detector.trigger_line 82 (1, 1, 6) 1700000000200 0 in
+  c05_window false [[94; 67; 13; 10]; line; firstn 20 line2; skipn 20 line2]
+  = ([Detector.replace_all Consts.det_client_old Consts.det_client_new line], 1%nat).
+Proof. vm_compute. reflexivity. Qed.
+
+(* the UploadFiles API as the model's EvApiUpload has it, regenerated from filter.go *)
+Theorem C05_skel_api : upload_files_api = expected_upload_files_api.
+Proof. exact skel_matches_api. Qed.
+Print Assumptions C05_skel_api.
